@@ -35,7 +35,7 @@ CHECK = {
               + shapes('n2reg', 'cfg-gcc-O0', 2, 'prbaltTu', '-g', 1, 'forced') + shapes('n2reg', 'cfg-gcc-O0', 2, 'prbaltTu', '-g', 1, 'threshold')
               + shapes('n2small', 'base', 2, 'pSVHhALP', '-st', 1, 'forced') + shapes('n2small', 'base', 2, 'prSVHhALP', '-sn', 1, 'threshold')
               + shapes('n2smallasan', 'asan', 2, 'pSVHhALP', '-s', 1, 'forced') + shapes('n3small', 'base', 3, 'pSVh', '-s', 4, 'forced')
-              + shapes('n2conv', 'base', 2, 'prXQqCc', '-st', 1, 'forced') + shapes('n2conv', 'base', 2, 'pXQqCc', '-sn', 1, 'threshold') + shapes('n3X', 'base', 3, 'pXb', '-st', 4, 'forced') + shapes('n2convasan', 'asan', 2, 'pQqCc', '-s', 1, 'forced')
+              + shapes('n2conv', 'base', 2, 'prXQqCc', '-st', 1, 'forced') + shapes('n2conv', 'base', 2, 'pXQqCc', '-sn', 1, 'threshold') + shapes('n3X', 'base', 3, 'pXb', '-st', 4, 'forced') + shapes('n2N', 'base', 2, 'pNu', '-sn', 1, 'forced') + shapes('n2N', 'base', 2, 'pN', '-sn', 1, 'threshold') + shapes('n2convasan', 'asan', 2, 'pQqCc', '-s', 1, 'forced')
               + [R('callbacks', 'base', 'mode=callbacks', 'maxn=4'), R('callbacks-asan', 'asan', 'mode=callbacks', 'maxn=3')]
               + [R('ladder', 'base', 'mode=ladder'), R('ladder-asan', 'asan', 'mode=ladder'), R('chain', 'base', 'mode=chain', 'maxlen=100000')]),
     'thorough': (shapes('n2', 'base', 2, 'prbaltTu', '-snrt', 1, 'forced') + shapes('n2', 'base', 2, 'prbaltTu', '-snrt', 1, 'threshold')
@@ -46,7 +46,7 @@ CHECK = {
               + shapes('n2small', 'base', 2, 'prbSVHhALP', '-snrt', 2, 'forced') + shapes('n2small', 'base', 2, 'prbSVHhALP', '-snrt', 2, 'threshold')
               + shapes('n2smallasan', 'asan', 2, 'pSVHhALP', '-snrt', 2, 'forced') + shapes('n3small', 'base', 3, 'pSVHhALP', '-s', 16, 'forced')
               + shapes('n3smallthr', 'base', 3, 'pSHAP', '-st', 8, 'threshold')
-              + shapes('n2conv', 'base', 2, 'prbXQqCc', '-snrt', 2, 'forced') + shapes('n2conv', 'base', 2, 'prbXQqCc', '-snrt', 2, 'threshold') + shapes('n3X', 'base', 3, 'pXbtu', '-st', 8, 'forced') + shapes('n3conv', 'base', 3, 'pQqCc', '-s', 8, 'forced') + shapes('n2convasan', 'asan', 2, 'pQqCc', '-snrt', 1, 'forced')
+              + shapes('n2conv', 'base', 2, 'prbXQqCc', '-snrt', 2, 'forced') + shapes('n2conv', 'base', 2, 'prbXQqCc', '-snrt', 2, 'threshold') + shapes('n3X', 'base', 3, 'pXbtu', '-st', 8, 'forced') + shapes('n3N', 'base', 3, 'pNu', '-snt', 8, 'forced') + shapes('n2N', 'base', 2, 'pNub', '-snrt', 2, 'threshold') + shapes('n3conv', 'base', 3, 'pQqCc', '-s', 8, 'forced') + shapes('n2convasan', 'asan', 2, 'pQqCc', '-snrt', 1, 'forced')
               + [R('callbacks', 'base', 'mode=callbacks', 'maxn=7'), R('callbacks-asan', 'asan', 'mode=callbacks', 'maxn=6')]
               + [R('ladder', 'base', 'mode=ladder'), R('ladder-asan', 'asan', 'mode=ladder'), R('chain', 'base', 'mode=chain', 'maxlen=1000000', timeout=3000)]),
   },
